@@ -42,6 +42,7 @@ type CheckCfg struct {
 	Module    string            `json:"module"`  // "core" | "server"
 	Package   string            `json:"package"` // e.g. "./util"
 	Harness   []string          `json:"harness"` // files under /verif/harness, copied into the package dir
+	ExtraOverlays map[string]string `json:"extra_overlays"` // module-relative virtual path -> file under /verif: helper files for OTHER packages (read-only accessors for unexported state)
 	Solver    string            `json:"solver"`
 	Entries   []*EntryCfg       `json:"entries"`
 	Follow    []string          `json:"follow"`
@@ -50,6 +51,8 @@ type CheckCfg struct {
 	Redirects map[string]string `json:"redirects"`
 	CallHooks map[string]HookCfg `json:"call_hooks"` // harness functions run before / after a real function (same parameters, receiver first, no results)
 	SymbolicOnlyRedirects []string `json:"symbolic_only_redirects"` // redirects NOT applied in native replay (the harness handles the real function natively)
+	FollowFuncs []string        `json:"follow_funcs"` // function-key prefixes that are interpreted although their package is a sink (e.g. the task gauges behind the prometheus collectors)
+	RealContext bool            `json:"real_context"` // interpret context.WithCancel from the standard library source (cancellation observable) instead of the no-op model
 	ZeroStubs []string          `json:"zero_stubs"` // functions replaced by "return zero values" (listed in the evidence)
 	Assumptions []string        `json:"assumptions"`
 	Bounds    map[string]string `json:"bounds"`
@@ -220,6 +223,11 @@ func (e *Engine) classify1(fn *ssa.Function) fnClass {
 		return e.classify(fn.Parent())
 	}
 	path := fnPkgPath(fn)
+	for _, p := range e.cfg.FollowFuncs {
+		if strings.HasPrefix(key, p) {
+			return clsFollow
+		}
+	}
 	// sinks win over follow (core/log lives under the repo prefix)
 	if e.sinkPkg(path) {
 		return clsSink
@@ -291,6 +299,15 @@ func (e *Engine) load() error {
 			return err
 		}
 		virt := filepath.Join(pkgDir, "zz_verif_"+filepath.Base(h))
+		e.overlay[virt] = src
+		e.overlayFiles[virt] = filepath.Join(e.verifRoot, h)
+	}
+	for virtRel, h := range e.cfg.ExtraOverlays {
+		src, err := os.ReadFile(filepath.Join(e.verifRoot, h))
+		if err != nil {
+			return err
+		}
+		virt := filepath.Join(modDir, virtRel)
 		e.overlay[virt] = src
 		e.overlayFiles[virt] = filepath.Join(e.verifRoot, h)
 	}
